@@ -14,7 +14,7 @@ WRAPS = ["muggle_evloop_add_ctx", "close", "accept", "read", "write", "malloc", 
 LINK_FLAGS = ["-Wl,--wrap=" + w for w in WRAPS]
 HEADER_LINES = 1
 CASE_TIMEOUT = 12.0
-MODEL_CASE_TIMEOUT = 10.0
+MODEL_CASE_TIMEOUT = 30.0
 SHRINK_BUDGET = 60
 PROOF_TIMEOUT = 2400
 
@@ -109,6 +109,11 @@ def gen_socket(rng, name, be, tier, force=None):
     for k in range(nconn):
         size[k] = rng.choice([0, 1, 7, 8, 9, 64, 200, 1000, 4000 if nconn <= 8 else 300,
                               (60000 if big else 9000) if nconn <= 3 else 100])
+    if max(size.values()) > 20000:
+        rbuf = 4096          # keeps the number of logged read fragments (and the acceptor's work) bounded
+    elif max(size.values()) > 2000:
+        rbuf = max(rbuf, 64)
+    lines[0] = "cfg be=%s fam=%s hints=%d pool=%d seed=%d rbuf=%d workers=%d" % (be, fam, hints, pool, seed, rbuf, workers)
     # triggers
     exit_conn = None
     mode = force.get("exit", rng.choice(["end", "end", "xmid", "trig", "handexit", "trig"]))
@@ -117,8 +122,9 @@ def gen_socket(rng, name, be, tier, force=None):
             for _ in range(rng.range(1, 2)):
                 lines.append("trig %d %d retain %d" % (k, rng.range(0, size[k]), rng.below(workers)))
         if rng.chance(1, 6):
-            # select back-end: a context registered and shut down in the same dispatch pass leaves its
-            # descriptor in allset (C13's territory: select() then fails with EBADF) -> threshold >= 1 there
+            # select back-end before its fix (13141b0): a context registered and shut down in the same dispatch
+            # pass left its descriptor in allset and the loop exited on EBADF (C13's territory; C15's model and
+            # monitor accept a loop that leaves on a back-end error) -> keep threshold >= 1 there
             lo = 1 if be == "select" else 0
             if size[k] >= lo:
                 lines.append("trig %d %d shut" % (k, rng.range(lo, size[k])))
@@ -195,7 +201,7 @@ def corpus_cases(ctx):
 
 def generate(rng, tier):
     cases = []
-    n = 40 if tier == "quick" else 400
+    n = 60 if tier == "quick" else 400
     for be in BACKENDS:
         r = rng.fork("sock/" + be)
         for i in range(n):
@@ -284,6 +290,8 @@ def _monitor_pipe(case, lines):
     done = None
     for n, ln in enumerate(lines):
         w = ln.split()
+        if not w:
+            continue
         if w[0] == "pr":
             a, i = int(w[1]), int(w[2])
             if not (0 <= a < writers):
@@ -333,6 +341,8 @@ def _monitor_sock(case, lines):
 
     for n, ln in enumerate(lines):
         w = ln.split()
+        if not w:
+            continue
         op = w[0]
         if op == "F":
             e = _check_f(ln)
@@ -534,6 +544,8 @@ def tally(dist, case, lines):
     inc("family=%s" % _kv(head, "fam"))
     for l in lines:
         w = l.split()
+        if not w:
+            continue
         if w[0] in ("alloc", "halloc"):
             inc("contexts")
         elif w[0] == "allocfail":
